@@ -10,6 +10,8 @@ pub mod c06;
 pub mod c07;
 pub mod c08;
 pub mod c09;
+pub mod c11;
+pub mod c12;
 pub mod c15;
 pub mod c16;
 pub mod c17;
@@ -36,6 +38,8 @@ pub fn all() -> Vec<Prop> {
         Prop { id: "C07", level: "exploration", run: c07::run, replay: c07::replay },
         Prop { id: "C08", level: "exploration", run: c08::run, replay: c08::replay },
         Prop { id: "C09", level: "exploration", run: c09::run, replay: c09::replay },
+        Prop { id: "C11", level: "exploration", run: c11::run, replay: c11::replay },
+        Prop { id: "C12", level: "exploration", run: c12::run, replay: c12::replay },
         Prop { id: "C15", level: "exploration", run: c15::run, replay: c15::replay },
         Prop { id: "C16", level: "fault_enumeration", run: c16::run, replay: c16::replay },
         Prop { id: "C17", level: "exploration", run: c17::run, replay: c17::replay },
